@@ -1485,6 +1485,12 @@ class Evaluator:
         # object vs None
         if name in ("is", "is not") and isinstance(b, Const) and b.value is None and self._is_plain_value(a):
             return Const(name == "is not")
+        # `(x or self.name) is None`: an `or` answers with its last operand when the others are falsy; a last operand that is
+        # declared a (non-optional) scalar is never None
+        if (name in ("is", "is not") and isinstance(b, Const) and b.value is None and isinstance(a, Sym) and a.kind == "op" and a.args[0] == "or"
+                and isinstance(a.args[-1], Sym) and a.args[-1].kind == "attr" and isinstance(a.args[-1].args[0], Obj)
+                and self._declared_scalar_attr(a.args[-1].args[0].cls, a.args[-1].args[1], allow_none=False)):
+            return Const(name == "is not")
         # `value is True` / `value is False` on a value of known kind: only a bool can be one of the two singletons
         if name in ("is", "is not") and isinstance(b, Const) and isinstance(b.value, bool) and (
                 isinstance(a, Str) or (isinstance(a, Sym) and a.kind == "call" and self._is_plain_value(a))):
@@ -1504,11 +1510,12 @@ class Evaluator:
             return Const(name == "is not")
         return Sym("op", (name, a, b))
 
-    def _declared_scalar_attr(self, cls, name: str) -> bool:
+    def _declared_scalar_attr(self, cls, name: str, allow_none: bool = True) -> bool:
         """every store `self.<name> = ...` in the class hierarchy is declared as a plain scalar (`self.x: str = ...`, or
-        `self.x = <parameter annotated str>`); an undeclared store answers False"""
+        `self.x = <parameter annotated str>`); an undeclared store answers False.  allow_none=False: `str | None` does not
+        count (the attribute is never None)"""
         memo = self.p.__dict__.setdefault("_declared_scalar_attr", {})
-        key = (cls, name)
+        key = (cls, name, allow_none)
         if key in memo:
             return memo[key]
         SCALARS = {"str", "int", "bool", "float", "bytes"}
@@ -1525,6 +1532,8 @@ class Evaluator:
                 return anno.id in SCALARS
             if isinstance(anno, ast.BinOp) and isinstance(anno.op, ast.BitOr):
                 parts = [anno.left, anno.right]
+                if not allow_none and any(isinstance(x, ast.Constant) and x.value is None for x in parts):
+                    return False
                 return all(scalar(x) or (isinstance(x, ast.Constant) and x.value is None) for x in parts) and any(scalar(x) for x in parts)
             return False
         stores = ok = 0
